@@ -36,7 +36,12 @@ type C13Case struct {
 	// SyntaxErrors: files that get an (independent) syntax error each. With two or more, the error text
 	// may depend on the file order - but never on the repetition or the process.
 	SyntaxErrors []int `json:"syntax_errors,omitempty"`
+	// TrickyKeys: the first file also gets a template with a map literal whose keys are hard to order:
+	// bytes that are not UTF-8, characters inside and outside the BMP, prefixes of each other.
+	TrickyKeys bool `json:"tricky_keys,omitempty"`
 }
+
+const c13TrickyKeys = "\n/** */\n{template .zzKeys}{let $zzm: ['k\xfe': 1, 'k\xff': 2, 'k': 3, 'kz': 4, '\xc3': 5, '\xe9': 6, 'é': 7, '～': 8, '𐀀': 9, 'K': 10, '': 11, 'k\xfd\xfe': 12] /}{$zzm['kz']}{$zzm['k']}{/template}\n"
 
 func placeholderNames(m *ast.MsgNode) string {
 	var names []string
@@ -78,6 +83,9 @@ func artefact2(c C13Case, order []int) (art string, imports int, suffixed bool, 
 	names, srcs := gen.Sources(&c.Prog.Prog)
 	if c.BreakFile >= 0 && c.BreakFile < len(srcs) {
 		srcs[c.BreakFile] += "\n/** */\n{template .zzBroken}{call .zzNoSuchTemplate /}{/template}\n"
+	}
+	if c.TrickyKeys && len(srcs) > 0 {
+		srcs[0] += c13TrickyKeys
 	}
 	for _, k := range c.SyntaxErrors { // independent syntax errors in several files
 		if k >= 0 && k < len(srcs) {
@@ -371,7 +379,7 @@ func checkC13(c C13Case) Verdict {
 func genC13(t *rapid.T) C13Case {
 	g := &gen.G{T: t, P: gen.Profile{HTMLChars: true, Directives: true, Common: true}}
 	pc := gen.GenProgram(g, gen.ProgOpts{MaxTemplates: 6, MaxDepth: 3, MaxCmds: 4, ExprDepth: 2, PosWeight: 2, CallWeight: 14, MinTemplates: 3, AllData: true, MsgStress: 60, MsgWeight: 6, NoLog: true})
-	c := C13Case{Prog: pc, BreakFile: -1}
+	c := C13Case{Prog: pc, BreakFile: -1, TrickyKeys: rapid.IntRange(0, 2).Draw(t, "trickyKeys") == 0}
 	if rapid.IntRange(0, 7).Draw(t, "break") == 0 {
 		c.BreakFile = rapid.IntRange(0, len(pc.Prog.Files)-1).Draw(t, "breakFile")
 	}
